@@ -267,6 +267,23 @@ def _file_cases(how, max_bytes, parts=1):
     return out
 
 
+def _long_sources():
+    out = []
+    for n in (15, 16, 17, 21, 22, 308, 309, 310, 400, 401, 1000, 4299, 4300, 4301, 5000, 20000):
+        out += ["1" * n, "9" * n + ".5", "0." + "0" * n + "1", "1e" + "9" * min(n, 400), "0x" + "f" * n, "0b" + "1" * n, "0o" + "7" * n,
+                'Number("' + "9" * n + '")', 'Number("0x' + "f" * n + '")', '+"' + "1" * n + 'e-' + str(n) + '"', 'parseInt("' + "z" * n + '", 36)',
+                'parseFloat("' + "1" * n + '")', '"' + "a" * n + '".length', "var " + "v" * n + " = 1; " + "v" * n,
+                '"\\u{' + "F" * min(n, 64) + '}"', '"\\u{' + "0" * min(n, 64) + '41}"', "/" + "a" * n + "/.test('a')", "/* " + "c" * n + " */ 1",
+                "// " + "c" * n + "\n1", "1" + " " * n + "+ 1", "(5)." + "toString()." * 0 + "toFixed(" + str(n) + ")", "(1.5).toString(" + str(n) + ")",
+                '"ab".repeat(' + str(n) + ').length', "new Array(" + str(n) + ").length", "[].concat(" + ",".join(["1"] * min(n, 300)) + ").length"]
+    for n in (10, 100, 200, 500, 1000, 3000):
+        out += ["-" * 0 + "- " * n + "1", "!" * n + "1", "typeof " * n + "1", "a" + ".b" * n, "x = " * 0 + "a" + "[0]" * n, "1" + " + 1" * n,
+                "1" + " ? 1 : 1" * min(n, 500), "f" + "()" * n, "new " * min(n, 500) + "F", "[" * min(n, 1000) + "]" * min(n, 1000),
+                "(" * min(n, 1000) + "1" + ")" * min(n, 1000), "{" * min(n, 1000) + "}" * min(n, 1000), "a = " * n + "1",
+                "var o = " + "{a: " * min(n, 500) + "1" + "}" * min(n, 500), "if (1) " * n + "2", "for (;;) " * 0 + "x: " * min(n, 300) + "1"]
+    return [("oversized tokens and long chains", {"sources": out, "positions": False})]
+
+
 def _sp(name, runner, fn, rule, bound, batch=1, watchdog=600):
     return Space(name, "mc.props.c04:" + runner, fn, oracle="inline", rule=rule, bound=bound, batch=batch, watchdog=watchdog,
                  nontrivial=lambda cid, p, exp: exp != "absent")
@@ -284,6 +301,10 @@ def spaces(tier, seed, all_strata=False):
             "every prefix (every character offset) of every tests/**/*.js program below 4 kB", "all offsets"),
         _sp("c04_mutations", "run_sources", lambda: [c for how in ("delete", "dup", "swap", "bracket") for c in _file_cases(how, 4000)],
             "every single-token deletion, duplication, adjacent swap and bracket substitution of every corpus program below 4 kB", "1 edit"),
+        _sp("c04_long", "run_sources", _long_sources,
+            "size sweep: digit strings, radix literals, numeric strings, identifiers, string/regex/comment bodies, \\u{...} escapes "
+            "and method arguments of length 15..20000, and operator/member/call/bracket/statement chains of length 10..3000",
+            "lengths to 20000"),
         _sp("c04_api2", "run_api", lambda: _api_cases(2),
             "every built-in method the engine answers on 28 receiver kinds (discovered through typeof receiver[name] for 330 candidate "
             "names) and 33 global functions/constructors, called and constructed with every argument vector of length 0..2 over the "
